@@ -89,11 +89,12 @@ where
             write!(result, "{start},{second_processor_id}")
                 .expect("writing to a String is infallible");
         } else {
-            let last_processor_id = start
-                .checked_add(len)
-                .expect("overflow impossible unless we far exceed any realistic processor ID range")
+            // Subtract before adding: `start + len` is one past the last item and overflows for a
+            // group that ends at the maximum item value, while the last item itself always fits.
+            let last_processor_id = len
                 .checked_sub(1)
-                .expect("cannot underflow because len is NonZero");
+                .and_then(|len_minus_one| start.checked_add(len_minus_one))
+                .expect("cannot overflow because the last item of the group is an item we were given");
 
             write!(result, "{start}-{last_processor_id}")
                 .expect("writing to a String is infallible");
@@ -149,5 +150,15 @@ mod tests {
             ]),
             "0-10"
         );
+    }
+
+    #[test]
+    fn range_ending_at_max_item() {
+        assert_eq!(
+            emit([u32::MAX - 2, u32::MAX - 1, u32::MAX]),
+            "4294967293-4294967295"
+        );
+        assert_eq!(emit([u32::MAX - 1, u32::MAX]), "4294967294,4294967295");
+        assert_eq!(emit([u32::MAX]), "4294967295");
     }
 }
